@@ -7,7 +7,9 @@ V = os.path.dirname(os.path.dirname(os.path.abspath(__file__)))
 sys.path.insert(0, os.path.join(V, "rules"))
 import facts as F, core as C
 
-NOT_ANCHORS = {"txtpp::fs::path::abs_path::create_file"}
+NOT_ANCHORS = {"txtpp::fs::path::abs_path::create_file",
+               # a one-line adaptor around iterate_directive's result: R07.4 / R04.1 are stated on its caller
+               "<std::result::Result<T, error_stack::Report<txtpp::error::PpError>> as txtpp::core::execute::pp::IgnoreIfCleaning>::ignore_err_if_cleaning"}
 fx = F.extract("/repo", "default")
 names, params = set(), {}
 for k in ("lib", "bin"):
